@@ -27,7 +27,7 @@ from sims import s2_tokens as T
 
 PROPERTY = "C13"
 LEVEL = "exploration"
-QUICK_RUNS = 1600
+QUICK_RUNS = 1000
 THOROUGH_RUNS = 60_000
 QUICK_BUDGET_S = 100
 THOROUGH_BUDGET_S = 1500
@@ -125,7 +125,7 @@ def _run(ctx: RunCtx, sched: Scheduler, rec: T.Recorder) -> None:
             t = T.METHODS[tname]
             rel = relation(m, t)
             wk = ch.choose(n_workers, f"p{j}.{tname}.w")
-            if not cold(wk) and ch.choose(4, f"p{j}.{tname}.restart") == 3:
+            if not cold(wk) and ch.choose(12, f"p{j}.{tname}.restart") == 11:
                 cluster.workers[wk].restart()
                 seen.discard(wk)
                 ch.fault("restart")
